@@ -564,5 +564,70 @@ def C20_full (K : Type) [Field K] [LinearOrder K] [IsStrictOrderedRing K] : Prop
 
 end Full
 
+/-- position-free characterisation of the hole boundary of a duplicate-free bad list -/
+theorem mem_polygon_iff {bad : List Tri} (hn : bad.Nodup) (e : Edge) :
+    e ∈ polygon bad ↔
+      ∃ t ∈ bad, e ∈ edges t ∧ ∀ o ∈ bad, o ≠ t → ∀ f ∈ edges o, edgeSame e f = false := by
+  constructor
+  · intro h
+    simp only [polygon, List.mem_flatMap, List.mem_filter, Bool.not_eq_true'] at h
+    obtain ⟨⟨t, ti⟩, hmem, he, hs⟩ := h
+    have hti := List.mem_zipIdx_iff_getElem?.mp hmem
+    simp only at hti
+    refine ⟨t, List.mem_of_getElem? hti, he, ?_⟩
+    intro o ho hne f hf
+    obtain ⟨oti, holt, rfl⟩ := List.getElem_of_mem ho
+    have hom : (bad[oti], oti) ∈ bad.zipIdx := List.mem_zipIdx_iff_getElem?.mpr (by simp [holt])
+    have := (List.any_eq_false.mp hs) _ hom
+    simp only [Bool.and_eq_true, bne_iff_ne, ne_eq, List.any_eq_true, not_and, not_exists] at this
+    have hne' : ti ≠ oti := by
+      rintro rfl
+      rw [List.getElem?_eq_getElem holt] at hti
+      exact hne (Option.some.inj hti)
+    have := this hne' f hf
+    simpa using this
+  · rintro ⟨t, ht, he, hs⟩
+    obtain ⟨ti, hlt, rfl⟩ := List.getElem_of_mem ht
+    simp only [polygon, List.mem_flatMap, List.mem_filter, Bool.not_eq_true']
+    refine ⟨(bad[ti], ti), List.mem_zipIdx_iff_getElem?.mpr (by simp [hlt]), he, ?_⟩
+    apply List.any_eq_false.mpr
+    rintro ⟨o, oti⟩ hom
+    have hoti := List.mem_zipIdx_iff_getElem?.mp hom
+    simp only at hoti
+    simp only [Bool.and_eq_true, bne_iff_ne, ne_eq, List.any_eq_true, not_and, not_exists]
+    intro hne f hf
+    have holt : oti < bad.length := by
+      by_contra hc
+      rw [List.getElem?_eq_none (by omega)] at hoti
+      cases hoti
+    rw [List.getElem?_eq_getElem holt] at hoti
+    have ho : o = bad[oti] := (Option.some.inj hoti).symm
+    subst ho
+    have hne2 : bad[oti] ≠ bad[ti] := fun h => hne ((hn.getElem_inj_iff.mp h).symm)
+    have := hs _ (List.getElem_mem holt) hne2 f hf
+    simp [this]
+
+/-- **bw_polygon_order_independent**: the hole-boundary edge SET does not depend on the order in which the
+    bad triangles were enumerated -/
+theorem bw_polygon_order_independent {bad bad' : List Tri} (hp : bad.Perm bad') (hn : bad.Nodup) (e : Edge) :
+    e ∈ polygon bad ↔ e ∈ polygon bad' := by
+  rw [mem_polygon_iff hn, mem_polygon_iff (hp.nodup_iff.mp hn)]
+  constructor
+  · rintro ⟨t, ht, he, hs⟩
+    exact ⟨t, hp.mem_iff.mp ht, he, fun o ho => hs o (hp.mem_iff.mpr ho)⟩
+  · rintro ⟨t, ht, he, hs⟩
+    exact ⟨t, hp.mem_iff.mpr ht, he, fun o ho => hs o (hp.mem_iff.mp ho)⟩
+
+
+/-- one insertion step: bad set and hole-boundary edge set are the same for every map order -/
+theorem bw_hole_order_independent {K : Type} [Field K] [LinearOrder K] [IsStrictOrderedRing K]
+    (P : Nat → Pt K) (env : List Tri → List Tri) (henv : ∀ l, (env l).Perm l)
+    (tris : List Tri) (hn : tris.Nodup) (pi : Nat) (e : Edge) :
+    e ∈ polygon (badTris P env tris pi) ↔ e ∈ polygon (badTris P id tris pi) :=
+  bw_polygon_order_independent (bw_order_independent_partial P env henv tris pi)
+    (((henv tris).nodup_iff.mpr hn).filter _) e
+
+example : polygon [(0, 1, 2), (2, 1, 3)] = [(0, 1), (2, 0), (1, 3), (3, 2)] := by decide
+
 end C20
 end PolyVerif
